@@ -190,3 +190,14 @@ func (w *World) unsafeUses() []string {
 	}
 	return bad
 }
+
+// ssaFuncInfo: the source function behind an SSA function (nil for synthetic ones and closures).
+func (w *World) ssaFuncInfo(fn *ssa.Function) *FuncInfo {
+	if fn == nil {
+		return nil
+	}
+	if o, ok := fn.Object().(*types.Func); ok {
+		return w.FuncOf(o)
+	}
+	return nil
+}
